@@ -126,6 +126,8 @@ class Extractor:
         if c.get("k") == "binary" and c["op"] in ("==", "!="):
             for a_, b_ in ((c["l"], c["r"]), (c["r"], c["l"])):
                 v = self.spec(a_)
+                if v is None and peel(a_).get("k") == "local":
+                    v = getattr(self, "_bound_lits", {}).get(peel(a_)["id"])
                 lit = peel(b_)
                 if v is not None and lit.get("k") == "lit":
                     return (lit.get("v") == v) == (c["op"] == "==")
@@ -339,6 +341,15 @@ class Extractor:
                             if alt.get("k") == "pbind":
                                 env = dict(env)
                                 env[alt["id"]] = ("lit", v)
+                            top = arm["pat"]
+                            while top.get("k") in ("pref", "pderef"):
+                                top = top["pat"]
+                            if top.get("k") == "pbind" and "sub" in top:
+                                # `ext @ ("uext" | "sext") => .. if ext == "uext" ..`: the name holds the literal that selected the arm
+                                env = dict(env)
+                                env[top["id"]] = ("lit", v)
+                                self._bound_lits = getattr(self, "_bound_lits", {})
+                                self._bound_lits[top["id"]] = v
                             return self.ev(arm["body"], env, depth + 1)
                 raise Opaque(n, "no arm for `%s`" % v)
         if k == "if" and self.spec is not None and "else" in n:
